@@ -107,7 +107,7 @@ def bindDataclass {α : Type} (bv : DVar → Str → JShape → Except Err α) (
 /-- one candidate class of `bind_best_dataclass` -/
 structure Cand where
   id : ClassId
-  /-- `{var.local_name for var in meta.get_all_vars()}` -/
+  /-- the names `local_names_match` accepts: local names and wrapper names of the vars -/
   localNames : List Str
   /-- `score_object(decoder.bind_dataclass(data, clazz))` in half points;
   `none` when the attempt raised (it is suppressed) -/
@@ -127,10 +127,16 @@ def bestStep (keys : List Str) (acc : Option (ClassId × Nat)) (c : Cand) : Opti
     | none => acc                                        -- `score_object(None)` is `-1.0`, never `>`
   else acc
 
-/-- `DictDecoder.bind_best_dataclass` : the class whose instance is returned.
-No flag of the configuration is consulted for the selection. -/
-def bindBest (keys : List Str) (cands : List Cand) : Except Err ClassId :=
-  match cands.foldl (bestStep keys) none with
+/-- the keys a candidate has to declare: with `fail_on_unknown_properties` off, the keys that
+none of the candidate classes declares are unknown properties and are left out -/
+def bestKeys (cfg : ParserConfig) (keys : List Str) (cands : List Cand) : List Str :=
+  if cfg.failOnUnknownProperties then keys
+  else keys.filter fun k => cands.any (·.localNames.contains k)
+
+/-- `DictDecoder.find_best_dataclass` over the attempts made under one configuration:
+the class whose instance is kept -/
+def bindBest (cfg : ParserConfig) (keys : List Str) (cands : List Cand) : Except Err ClassId :=
+  match cands.foldl (bestStep (bestKeys cfg keys cands)) none with
   | some (c, _) => .ok c
   | none => .error (.parser "Failed to bind object")
 
@@ -166,9 +172,17 @@ def workStep (cfg : ParserConfig) : Work → Except Err Done × ParserConfig
        (if cfg.failOnConverterWarnings then .error (.parser "Failed to convert value") else .ok .warned)
      else .ok .kept, cfg)
   | .best keys cands =>
-    (match bindBest keys (cands.map (·.under (candidateConfig cfg))) with
+    -- the candidates are tried under the strict copy; when none binds and the caller's
+    -- `fail_on_converter_warnings` is off they are ranked again under the caller's own
+    -- configuration (and the winner is bound with it)
+    (match bindBest cfg keys (cands.map (·.under (candidateConfig cfg))) with
      | .ok c => .ok (.chose c)
-     | .error err => .error err, cfg)
+     | .error err =>
+       if cfg.failOnConverterWarnings then .error err
+       else
+         match bindBest cfg keys (cands.map (·.under cfg)) with
+         | .ok c => .ok (.chose c)
+         | .error err => .error err, cfg)
 
 /-- a decoder (one `ParserConfig` object) working through the items of one or several
 documents; a failed item ends its document, the decoder is used again for the next one -/
